@@ -176,6 +176,25 @@ def oracle_c03(name, cfg, res, ulps=4):
     bad = np.nonzero(b < bmin - slack)[0]
     if len(bad):
         j = int(bad[0]); out.append(("bmin", "b[%d]=%r below bmin=%r by more than rounding slack %r" % (j, b[j], bmin, float(np.atleast_1d(slack)[min(j, np.size(slack) - 1)]))))
+    if name == "lpsd":
+        # "The LPSD scheduler is the LTF scheduler with bmin=1 and Lmin=1", whatever bmin / Lmin the caller passes
+        ref = run_sched("ltf", c)
+        if not ref["ok"]:
+            out.append(("lpsd=ltf", "lpsd_plan builds a plan but ltf_plan(bmin=1, Lmin=1) raises %s" % ref.get("exc")))
+        else:
+            q = ref["plan"]
+            if len(q["f"]) != len(f):
+                out.append(("lpsd=ltf", "lpsd_plan has %d bins, ltf_plan(bmin=1, Lmin=1) has %d (caller passed bmin=%r, Lmin=%r)" % (len(f), len(q["f"]), cfg["bmin"], cfg["Lmin"])))
+            else:
+                for k in ("f", "r", "b", "L", "K"):
+                    a_ = np.asarray(p[k]); b_ = np.asarray(q[k])
+                    if not np.array_equal(a_, b_):
+                        j = int(np.nonzero(a_ != b_)[0][0])
+                        out.append(("lpsd=ltf", "lpsd_plan %s[%d]=%r differs from ltf_plan(bmin=1, Lmin=1) %r (caller passed bmin=%r, Lmin=%r)" % (k, j, a_[j], b_[j], cfg["bmin"], cfg["Lmin"]))); break
+                else:
+                    for j, (d1, d2) in enumerate(zip(p["D"], q["D"])):
+                        if not np.array_equal(np.asarray(d1), np.asarray(d2)):
+                            out.append(("lpsd=ltf", "lpsd_plan starts of bin %d differ from ltf_plan(bmin=1, Lmin=1)" % j)); break
     return out
 
 
